@@ -196,6 +196,7 @@ def check(ctx, report):
     from .c07 import ecdsa_points
     ecdsa_points(ctx, report, RULE='C01.R16')
     defaults_are_values(ctx, report)
+    indistinguishable_optionals(ctx, report)
     if 'SslRecord' in reviewed and reviewed['SslRecord'].get('strip_header'):
         # the header left out of the element-wise comparison above
         from .c06 import ssl2_header
@@ -207,6 +208,64 @@ def check(ctx, report):
     report.floor('C01.R1', 150, 'binary DSL classes')
     report.floor('C01.R2t', 100, 'text DSL classes')
     report.floor('C01.R5', 300, 'class/registry obligations')
+
+
+def indistinguishable_optionals(ctx, report, RULE='C01.R18', only=None):
+    """Two optional parts of a text value that follow each other, are written under conditions on two different attributes and
+    begin with the same literal (``/`` length ``/`` length): when only the second is present the composer writes exactly what it
+    writes when only the first is present, so the parser - which reads left to right - hands the value to the first.  Decided on
+    the composer layout of every class written in the text DSL: adjacent optional alternatives with equal shape and equal leading
+    constants."""
+    report.rule(RULE, 'text values: two adjacent optional parts are told apart by what introduces them')
+    n = 0
+
+    def lead(arm):
+        out = []
+        for e in arm:
+            if e.kind in ('t:separator', 't:string') and isinstance(e.val, str):
+                out.append((e.kind, e.val))
+            else:
+                break
+        return out
+
+    def attrs_of(v):
+        return {r[0] for r in compose_root(v)} - {'*'} if v is not None else set()
+
+    def scan(els, c):
+        nonlocal n
+        for x, y in zip(els, els[1:]):
+            if x.kind == 'alt' and y.kind == 'alt':
+                for (xa, xb), (ya, yb) in (((x.a, x.b), (y.a, y.b)),):
+                    if xa and ya and not xb and not yb:
+                        n += 1
+                        if [e.sig() for e in xa] == [e.sig() for e in ya] and lead(xa) and lead(xa) == lead(ya) and \
+                                attrs_of(x.val) and attrs_of(y.val) and not (attrs_of(x.val) & attrs_of(y.val)):
+                            first, second = sorted(attrs_of(x.val))[0], sorted(attrs_of(y.val))[0]
+                            report.add(RULE, '%s@optional[%s,%s]' % (c.construct, first, second),
+                                       'the optional parts for %s and %s are both written as %s followed by %s: a value with only %s set is composed as '
+                                       'the bytes of a value with only %s set, and is parsed back as that one' % (
+                                           first, second, ' '.join(repr(v) for _, v in lead(xa)), ' '.join(e.sig() for e in xa[len(lead(xa)):]) or 'nothing',
+                                           second, first))
+        for e in els:
+            if e.kind == 'alt':
+                scan(e.a, c)
+                scan(e.b, c)
+            elif e.kind in ('repeat', 'array') and getattr(e, 'body', None):
+                scan(e.body, c)
+    for c in ctx.model.concrete_parsables():
+        if only is not None and not only(c):
+            continue
+        if classify(ctx, c) not in ('text', 'mixed'):
+            continue
+        try:
+            cc = ctx.canon.canon(c, 'compose')
+        except Exception:      # pylint: disable=broad-except
+            continue
+        if cc is None:
+            continue
+        scan(list(cc.elements), c)
+    report.count(RULE, n)
+    report.floor(RULE, 3, 'pairs of adjacent optional parts')
 
 
 def defaults_are_values(ctx, report, RULE='C01.R17'):
